@@ -37,7 +37,7 @@ def main():
     demo = os.path.join(out, 'demo.py')
     meta = dict(property=prop, name=name, ran=[], at=time.strftime('%Y-%m-%d %H:%M:%S'))
     # 0. worktree state == clean HEAD + patch ?
-    rc, o = sh('git -C %s stash -q 2>/dev/null; git -C %s checkout -q -- . ; git -C %s apply --check %s && git -C %s apply %s' % (wt, wt, wt, patch, wt, patch))
+    rc, o = sh('git -C %s checkout -q -- . ; git -C %s apply --check %s && git -C %s apply %s' % (wt, wt, patch, wt, patch))   # no `git stash`: refs/stash is shared by all worktrees
     meta['patch_applies_on_clean_checkout'] = (rc == 0)
     if rc != 0:
         print('patch does not apply:', o)
@@ -61,25 +61,15 @@ def main():
     meta['confirmed'] = keep
     # 3. our checks against it
     res = {}
-    rc, o = sh('git -C /repo status --porcelain')
-    if o.strip():
-        print('/repo not clean, refusing')
-        return 3
-    rc, o = sh('git -C /repo apply %s' % patch)
-    try:
-        if rc != 0:
-            res['apply'] = 'patch does not apply to /repo: ' + o[-300:]
-        else:
-            for c in checks:
-                rcc, oc = sh('./check %s --tier quick --no-sentinels' % c, cwd=ROOT, timeout=3000)
-                viol = [l for l in oc.split('\n') if l.startswith('VIOLATION')]
-                res[c] = dict(exit=rcc, violations=[re.sub(r'replay=\S+ ', '', v)[:260] for v in viol][:12], n_violations=len(viol),
-                              other=[l[:200] for l in oc.split('\n') if l.startswith(('UNDECIDED', 'ENGINE', 'VACUITY', 'CHECKER'))][:5])
-    finally:
-        sh('git -C /repo checkout -- . && git -C /repo clean -fdq msdm')
+    # the checks are aimed at the patched scratch worktree through VERIF_REPO (/repo itself is never touched)
+    for c in checks:
+        rcc, oc = sh('./check %s --tier quick --no-sentinels' % c, cwd=ROOT, timeout=3000, env=dict(VERIF_REPO=wt))
+        viol = [l for l in oc.split('\n') if l.startswith('VIOLATION')]
+        res[c] = dict(exit=rcc, violations=[re.sub(r'replay=\S+ ', '', v)[:260] for v in viol][:12], n_violations=len(viol),
+                      other=[l[:200] for l in oc.split('\n') if l.startswith(('UNDECIDED', 'ENGINE', 'VACUITY', 'CHECKER', 'UNBOUND'))][:5])
     meta['checks_against_change'] = res
     meta['caught_by'] = [c for c, r in res.items() if isinstance(r, dict) and r.get('exit') == 1]
-    meta['ran'].append('git -C /repo apply patch.diff; ./check <prop> --tier quick; git -C /repo checkout -- .')
+    meta['ran'].append('VERIF_REPO=<patched worktree> ./check <prop> --tier quick')
     if os.path.exists(os.path.join(out, 'notes.md')):
         meta['needs_to_manifest'] = open(os.path.join(out, 'notes.md')).read()[:1500]
     d = os.path.join(ROOT, 'seeded', name)
